@@ -31,6 +31,15 @@ Oracle, when `blocking_flush` returned true (otherwise the scenario is inconclus
    the dead endpoint in a row during which the healthy endpoints saw nothing at all, had nothing
    in flight, and still had undelivered events.
 
+7. a request that hangs at any phase of the response (no response at all; HTTP/1: inside the head,
+   after a head that announces a body, inside the body; gRPC: after the response HEADERS, inside the
+   message prefix, before the trailers) is given up at the request timeout and sent again - judged
+   against a reference emitter whose attempts tick once per request timeout;
+8. no event of a request that was acknowledged appears in a later request (at-least-once only allows
+   an unacknowledged attempt and its acknowledged retry to overlap);
+9. retry-budget sequences: a batch that fails on every attempt is given up, and the next batch - same
+   signal or another one, afterwards or meanwhile - that fails once is sent again and acknowledged.
+
 No verdict depends on a deadline: the waits are watchdogs that make the scenario inconclusive.
 */
 
@@ -934,6 +943,55 @@ fn run(r: &mut Report, sc: &Scenario) {
                     &format!("request #{} on {} arrived on connection {} on which request #{} ({}) was never answered", rec.seq, rec.endpoint.name(), rec.conn, prev.seq, prev.decision.name()),
                     case_json(json!({"request": rec.brief(), "earlier": prev.brief()})),
                 );
+            }
+        }
+    }
+
+    // ---- rule 8: a request that was acknowledged is not sent again ----
+    // Duplicates between an unacknowledged attempt and its acknowledged retry are fine (at-least-once).
+    // What must not happen is that events of a request the collector acknowledged show up in a later request.
+    // Judged only when the emitter has seen every acknowledgement the collector wrote (its own count of
+    // successful requests equals the collector's): an acknowledgement that got lost to a client-side timeout
+    // under load is legitimately followed by a retry.
+    {
+        let acks_written = records.iter().filter(|rec| rec.acked()).count();
+        let acks_seen = ms.http_batch_sent() + ms.grpc_batch_sent();
+        if acks_written != acks_seen {
+            r.observe("resend-rule-not-judged:acknowledgements-written-and-seen-differ", 1);
+        } else {
+            r.observe("scenarios-judged-for-resent-acknowledged-requests", 1);
+            for s in Signal::ALL {
+                let mut on_ep: Vec<&Record> = records.iter().filter(|rec| rec.endpoint == s).collect();
+                on_ep.sort_by_key(|rec| rec.seq);
+                for (i, first) in on_ep.iter().enumerate() {
+                    // (a 2xx status line followed by a hanging body: whether that is sent again is left open)
+                    if !first.acked() || first.acked_by_status_line() {
+                        continue;
+                    }
+                    let Some(set) = vidsets.get(&first.idx) else { continue };
+                    if let Some(again) = on_ep[i + 1..].iter().find(|later| vidsets.get(&later.idx).map(|l| !l.is_disjoint(set)).unwrap_or(false)) {
+                        let between = on_ep[i + 1..].iter().take_while(|x| x.idx != again.idx).filter(|x| !x.acked()).last();
+                        let after = between.map(|b| b.decision.class()).unwrap_or("none");
+                        let again_set = &vidsets[&again.idx];
+                        r.violation(
+                            &format!("C12:acknowledged-request-resent:{}:after={}", tname, after),
+                            &format!(
+                                "request #{} on {} ({} events) was acknowledged ({}), yet {} of its events are in the later request #{} ({}){}",
+                                first.seq,
+                                s.name(),
+                                set.len(),
+                                first.decision.name(),
+                                set.intersection(again_set).count(),
+                                again.seq,
+                                again.decision.name(),
+                                between.map(|b| format!("; request #{} in between failed ({})", b.seq, b.decision.name())).unwrap_or_default()
+                            ),
+                            case_json(json!({"acknowledged": first.brief(), "sent_again_in": again.brief(), "failed_in_between": between.map(|b| b.brief()),
+                                "acknowledgements_written": acks_written, "acknowledgements_seen_by_the_emitter": acks_seen})),
+                        );
+                        break;
+                    }
+                }
             }
         }
     }
